@@ -12,6 +12,21 @@ ALL = [f"C{i:02d}" for i in range(1, 21)]
 
 # property -> (category, technique, level text, level note, design ref)
 CHECKS = {
+    "C06": ("exploration",
+            "model-based stateful property testing (rapid state machine over a tree of real kcache nodes fed by a fake API server), double-marker barriers, reference-predicate conjunction + strict event-replay mirrors; quiet and perturbed-schedule modes",
+            "Generated trees of all six attach kinds (depth <= 3) over a real controller; every operation (server change, attach, Refilter, lost watch events + gated relist) is followed by a marker barrier and then every live node's cache is compared with the conjunction of reference predicates on its path applied to the controller's view, and a consumer-side strict mirror built from its Events() with its cache. A second mode runs server traffic and Refilter scripts concurrently under logger-driven schedule perturbation and judges convergence and stream well-formedness at a final barrier. Exploration: histories and interleavings are sampled; orderings that pass through collaborators (list vs watch, refilter vs event) are sequenced by the harness itself.",
+            "Filters are wrapped so barrier markers (namespace zz) pass; oracles ignore that namespace. Interleavings inside the library are perturbed, not enumerated.",
+            "DESIGN.md section 4, C06"),
+    "C07": ("exploration",
+            "bounded-exhaustive enumeration (256 contents x 512 filter triples) + rapid chains; oracle = exact event multiset / identity / restoration between two barriers",
+            "Every parent content over the 4-key universe and every ordered triple of the 8-filter family is executed against a real filtered subscription as a chain of Refilter calls; each call's events between two double-marker barriers must be exactly one Delete per cached object the new filter rejects and one Create per newly accepted parent object, retained objects keep their identity, equal filters emit nothing, and returning to the first filter restores its view. The quick tier already runs the complete enumeration.",
+            "Premise of the property is enforced by the harness: the node is ready and no parent event is in flight during a checked Refilter.",
+            "DESIGN.md section 4, C07"),
+    "C08": ("exploration",
+            "bounded-exhaustive enumeration of operation orders (46656 orders x 12 variants) against a readiness model + rapid perturbed-schedule orders with failing first lists",
+            "The first list is gated so that 'parent becomes ready' is a harness step; every order of length 6 over the six operation kinds of the property is run for immediate/deferred x subscription/clone x depth 1..3 and after every step Ready() must be closed exactly for the nodes the readiness model names, no event may have been sent before Ready, the listing taken at the instant Ready is observed must be the synced content. Random orders without barriers under schedule perturbation add the failing-first-list clause. Quick samples every 40th order; thorough enumerates all.",
+            "Negative readiness is asserted at arbitrary instants, positive readiness with a wedge bound (10 s, confirmed once with 25 s more).",
+            "DESIGN.md section 4, C08"),
     "C15": ("exploration",
             "property-based concurrency testing (rapid-generated writer scripts, concurrent readers, interval linearizability oracle) under the Go race detector",
             "Generated writer scripts produce a known sequence of complete cache states; concurrent readers bracket every List/Get with the writer's progress counters and each result must equal the state at some index inside the bracket (interval linearizability), with per-reader monotonicity and caller-owned slices; the binary is built with -race so any data race on cache state fails the check. Exploration: schedules are sampled (GOMAXPROCS variation, reader yields), not enumerated.",
